@@ -42,13 +42,13 @@ type wireEnv struct {
 // wireKind is one call kind of the corpus.
 type wireKind struct {
 	name  string
-	path  string // "conn" | "transport"
-	api   int16  // api key of the exchange whose response is damaged
-	nth   int    // damage the nth (0-based) response of that api seen after arming
+	path  string          // "conn" | "transport"
+	api   int16           // api key of the exchange whose response is damaged
+	nth   int             // damage the nth (0-based) response of that api seen after arming
 	vers  map[int16]int16 // version ceilings for this kind
 	magic int8            // stored record format
 	codec int8
-	prep  func(e *wireEnv) error          // un-damaged preparation (join before sync ...)
+	prep  func(e *wireEnv) error           // un-damaged preparation (join before sync ...)
 	call  func(e *wireEnv) (string, error) // the call; returns "" or a description of a wrong value
 }
 
